@@ -229,7 +229,7 @@ func (e *Engine) applyCond(s *fstate, r AV, v ssa.Value, cond ssa.Value, branch 
 					continue
 				}
 				m.Taint = r.Taint
-				m.Exact = false
+				m.Raw = r.Raw
 				r = m
 			}
 		}
@@ -611,7 +611,11 @@ func (e *Engine) outcomeConstraints(fn *ssa.Function, ridx int, want bool) []AV 
 		tmp.stores = real.stores
 	}
 	for i, p := range fn.Params {
-		tmp.params[i] = e.top(p.Type())
+		// a neutral seed: nothing is known and nothing has been limited yet; every value is possible.
+		// Whatever limits and exclusions the result carries were applied by fn itself.
+		a := e.top(p.Type())
+		a.SanLo, a.SanHi, a.Exact = false, false, true
+		tmp.params[i] = a
 	}
 	e.iterate(tmp)
 	out := make([]AV, len(fn.Params))
